@@ -177,3 +177,36 @@ Theorem C18_rendered_frontend_refuted :
       q (fun _ => ONon2xx) false = Served.
 Proof. exact rendered_frontend_refuted. Qed.
 Print Assumptions C18_rendered_frontend_refuted.
+
+(* txn.pathID is not an input any more: it is what the idpath maps of the backend answer
+   for the key of the host path (`derive_id`, 0 = unset).  With maps that have an entry
+   for every path of the backend (`ids_cover`, CHECKED on the real map files of every
+   correspondence case) the derived id is the id of the path ... *)
+Theorem C18_pathid_total : forall m ds, ids_cover m ds -> NoDup (map fst m) ->
+  forall d, In d ds -> derive_id m (d_key d) = d_id d.
+Proof. exact pathid_total. Qed.
+Print Assumptions C18_pathid_total.
+
+(* ... so the rendered rules are fail closed for the request as HAProxy sees it *)
+Theorem C18_rendered_rules_fail_closed_mapped : forall lua fe used0 px ds px' cfgs crs exs m d,
+  process_backend lua fe used0 px ds = (px', cfgs) -> In d ds ->
+  backend_in_charge fe d = true ->
+  ids_cover m ds -> NoDup (map fst m) ->
+  exists a, In (d_id d, a) cfgs /\
+    forall out st q, q_path (xq q) = d_key d -> q_id (xq q) = derive_id m (q_path (xq q)) ->
+      skip_free a (xq q) ->
+      eval_rules (gen_auth_rules {| b_auth := cfgs; b_cors := crs; b_extra := exs |}) q out st = Served ->
+      a_deny a = false /\ exists n, a_name a = Some n /\ out n = OOk.
+Proof. exact rendered_rules_fail_closed_mapped. Qed.
+Print Assumptions C18_rendered_rules_fail_closed_mapped.
+
+(* ... and without the premise it is false: a path without map entry is served whatever
+   its authentication service answers *)
+Theorem C18_pathid_missing_refuted :
+  exists ds cfgs m d q,
+    snd (process_backend true (fun _ => false) [] px_default ds) = cfgs /\
+    In d ds /\ backend_in_charge (fun _ => false) d = true /\ ~ ids_cover m ds /\
+    q_path (xq q) = d_key d /\ q_id (xq q) = derive_id m (q_path (xq q)) /\
+    eval_rules (gen_auth_rules {| b_auth := cfgs; b_cors := []; b_extra := [] |}) q (fun _ => OUnreachable) false = Served.
+Proof. exact pathid_missing_refuted. Qed.
+Print Assumptions C18_pathid_missing_refuted.
